@@ -32,8 +32,8 @@ import (
 	"strings"
 	"testing"
 
-	"github.com/ChainSafe/gossamer/lib/common"
 	kit "github.com/ChainSafe/gossamer/internal/verifkit"
+	"github.com/ChainSafe/gossamer/lib/common"
 	"github.com/libp2p/go-libp2p/core/peer"
 	"pgregory.net/rapid"
 )
@@ -375,10 +375,34 @@ func c21Gen(t *rapid.T) *c21Case {
 		}
 	}
 	c.best = deepest[rapid.IntRange(0, len(deepest)-1).Draw(t, "best")]
-	// the branch most votes go to
-	main := sub[rapid.IntRange(0, len(sub)-1).Draw(t, "main")]
-	if rapid.Bool().Draw(t, "mainDeep") {
-		main = sub[len(sub)-1-rapid.IntRange(0, (len(sub)-1)/2).Draw(t, "mainFromEnd")]
+	// where most votes go: either one branch head..main ("branch" mode) or the
+	// subtrees of the children of a fork point main, with some votes on main's
+	// ancestors ("fork" mode: the GHOST is then typically a block nobody voted
+	// for directly, below a directly voted ancestor)
+	children := func(b int) []int {
+		var out []int
+		for i := b + 1; i < tree.size(); i++ {
+			if tree.parent[i] == b {
+				out = append(out, i)
+			}
+		}
+		return out
+	}
+	var forkPts []int
+	for _, b := range sub {
+		if len(children(b)) >= 2 {
+			forkPts = append(forkPts, b)
+		}
+	}
+	forkMode := len(forkPts) > 0 && rapid.Bool().Draw(t, "forkMode")
+	var main int
+	if forkMode {
+		main = forkPts[rapid.IntRange(0, len(forkPts)-1).Draw(t, "forkPoint")]
+	} else {
+		main = sub[rapid.IntRange(0, len(sub)-1).Draw(t, "main")]
+		if rapid.Bool().Draw(t, "mainDeep") {
+			main = sub[len(sub)-1-rapid.IntRange(0, (len(sub)-1)/2).Draw(t, "mainFromEnd")]
+		}
 	}
 	var path []int // head .. main
 	for b := main; ; b = tree.parent[b] {
@@ -394,10 +418,27 @@ func c21Gen(t *rapid.T) *c21Case {
 		}
 	}
 	pickBlock := func() int {
-		switch rapid.IntRange(0, 9).Draw(t, "where") {
-		case 0, 1, 2:
+		w := rapid.IntRange(0, 9).Draw(t, "where")
+		if forkMode {
+			switch {
+			case w == 0:
+				return sub[rapid.IntRange(0, len(sub)-1).Draw(t, "blk")]
+			case w <= 2 && len(path) > 1:
+				return path[rapid.IntRange(0, len(path)-2).Draw(t, "blk")] // strict ancestor of the fork point
+			default:
+				kids := children(main)
+				kid := kids[rapid.IntRange(0, len(kids)-1).Draw(t, "kid")]
+				if rapid.Bool().Draw(t, "kidItself") {
+					return kid
+				}
+				st := tree.subtree(kid)
+				return st[rapid.IntRange(0, len(st)-1).Draw(t, "blk")]
+			}
+		}
+		switch {
+		case w <= 2:
 			return sub[rapid.IntRange(0, len(sub)-1).Draw(t, "blk")]
-		case 3, 4:
+		case w <= 4:
 			return main
 		default:
 			// upper part of the main branch
@@ -410,12 +451,12 @@ func c21Gen(t *rapid.T) *c21Case {
 		c.ownPrevote = pickBlock()
 	}
 	c.ownPrecommit = rapid.IntRange(0, 3).Draw(t, "ownPC") > 0
-	if rapid.IntRange(0, 2).Draw(t, "pending") == 0 {
+	if rapid.Bool().Draw(t, "pending") {
 		c.pendingAt = rapid.IntRange(0, tree.size()-1).Draw(t, "pendingAt")
-		if rapid.Bool().Draw(t, "pendingOnMain") {
+		if rapid.IntRange(0, 3).Draw(t, "pendingOnMain") > 0 {
 			c.pendingAt = tree.ancestorAt(main, uint(rapid.IntRange(0, int(tree.number[main])).Draw(t, "pendingNum"))) //nolint:gosec
 		}
-		c.pendingEff = tree.number[c.pendingAt] + uint(rapid.IntRange(0, 2).Draw(t, "delay")) //nolint:gosec
+		c.pendingEff = tree.number[c.pendingAt] + uint(rapid.SampledFrom([]int{0, 0, 1, 1, 2}).Draw(t, "delay")) //nolint:gosec
 	}
 
 	garbage := func() [64]byte {
@@ -426,6 +467,9 @@ func c21Gen(t *rapid.T) *c21Case {
 	badKinds := []string{"garbageSig", "sigOtherVote", "sigOtherStage", "sigRound", "sigSet", "nonAuth", "unknownBlock", "wrongNumber", "wrongNumber",
 		"notDescending", "notDescending", "msgRoundAhead", "msgRoundBehind", "msgSet"}
 	nm := rapid.IntRange(0, 2*c.n+4).Draw(t, "messages")
+	if rapid.IntRange(0, 3).Draw(t, "manyMessages") > 0 {
+		nm = c.n - 1 + rapid.IntRange(0, c.n+5).Draw(t, "extraMessages")
+	}
 	voted := map[Subround][]int{} // members that already have a valid vote per stage
 	for i := 0; i < nm; i++ {
 		m := c21Msg{stage: prevote, round: r, setID: c.setID}
@@ -433,7 +477,7 @@ func c21Gen(t *rapid.T) *c21Case {
 			m.stage = precommit
 		}
 		m.kind = "valid"
-		if c.n < 2 || rapid.IntRange(0, 9).Draw(t, "bad") < 3 {
+		if c.n < 2 || rapid.IntRange(0, 7).Draw(t, "bad") < 2 {
 			m.kind = rapid.SampledFrom(badKinds).Draw(t, "kind")
 		} else if len(voted[m.stage]) > 0 && rapid.IntRange(0, 5).Draw(t, "equivocate") == 0 {
 			m.kind = "valid-again"
@@ -537,4 +581,61 @@ func TestC21Round(t *testing.T) {
 		nontrivial := res.smNonEmpty && !res.ghostIsHead && (res.invalidSeen || res.equivSeen)
 		kit.Case(descr, nontrivial, labels...)
 	})
+}
+
+// c21Valid builds a correctly signed message of authority key for block blk
+// in round headRound+1.
+func c21Valid(c *c21Case, tree *vTree, kind string, key int, stage Subround, v Vote) c21Msg {
+	r := c.headRound + 1
+	return c21Msg{kind: kind, key: key, stage: stage, vote: v, round: r, setID: c.setID,
+		sig: vSignVote(key, stage, v, r, c.setID)}
+}
+
+// TestC21Regressions: shrunk failures of TestC21Round on the pinned tree
+// (repaired by the fixes/ of this check), kept as deterministic cases.
+func TestC21Regressions(t *testing.T) {
+	defer kit.Flush()
+	cases := map[string]func() *c21Case{
+		// validateVote did not compare the vote's number with the block's number
+		"wrong-number-accepted": func() *c21Case {
+			c := &c21Case{n: 2, parent: []int{-1, 0}, best: 1, ownPrevote: -1, pendingAt: -1}
+			tree := newVTree(c.parent)
+			v := tree.vote(0)
+			c.msgs = append(c.msgs, c21Valid(c, tree, "valid", 1, precommit, v))
+			v.Number = 1
+			c.msgs = append(c.msgs, c21Valid(c, tree, "wrongNumber", 1, precommit, v))
+			return c
+		},
+		// b1 is voted directly and has 4/4, b2 (child of b1) has 3/4 through the votes on its children b3, b4
+		"ghost-above-directly-voted-ancestor": func() *c21Case {
+			c := &c21Case{n: 4, parent: []int{-1, 0, 1, 2, 2}, best: 3, ownPrevote: 1, pendingAt: -1}
+			tree := newVTree(c.parent)
+			c.msgs = append(c.msgs,
+				c21Valid(c, tree, "valid", 1, prevote, tree.vote(3)),
+				c21Valid(c, tree, "valid", 2, prevote, tree.vote(4)),
+				c21Valid(c, tree, "valid", 3, prevote, tree.vote(3)))
+			return c
+		},
+		// GHOST b5 is not on the best chain (best = b3); change announced in b1 with effective number 2:
+		// the precommit must be capped to b4 (ancestor of b5), not to b2 (number 2 on the best chain)
+		"cap-on-ghost-chain": func() *c21Case {
+			c := &c21Case{n: 3, parent: []int{-1, 0, 1, 2, 1, 4}, best: 3, ownPrevote: 5, pendingAt: 1, pendingEff: 2}
+			tree := newVTree(c.parent)
+			c.msgs = append(c.msgs,
+				c21Valid(c, tree, "valid", 1, prevote, tree.vote(5)),
+				c21Valid(c, tree, "valid", 2, prevote, tree.vote(5)))
+			return c
+		},
+	}
+	for name, mk := range cases {
+		c := mk()
+		res, tree, err := c21Eval(c)
+		if err != nil {
+			t.Fatalf("%s: harness: %v", name, err)
+		}
+		if res.violation != "" {
+			t.Errorf("%s: %s\ncase: %s", name, res.violation, c21Describe(c, tree))
+		}
+		t.Logf("%s: labels %v", name, res.labels)
+	}
 }
